@@ -34,7 +34,7 @@ func runHistory(w *bufio.Writer, id int, profile string, seed uint64, nOps int, 
 			}
 			o = replay[i]
 		} else {
-			if i >= nOps {
+			if (i >= nOps && !g.Busy()) || i >= nOps+170 {
 				break
 			}
 			o = g.SafeNext()
